@@ -22,3 +22,48 @@ def register(reg):
         native_oracle=__import__('contracts.native', fromlist=['x']).tmp_seed_oracle,
         notes='ghost RNG = state of the global NumPy generator; the with-body (yield) may change it arbitrarily and may raise',
     ))
+    register_cbh(reg)
+
+
+# ---- calc_base_height (C04, C08) ---------------------------------------------------------------
+from pyvc.lib import ArrOf
+from .spec import ln, _rv, _isnan
+
+
+def _as_real(q):
+    from pyvc.values import to_real_parts
+    return to_real_parts(q)[1]
+
+
+def _cbh_post(result, vals, lookback_perc, height_perc):
+    """the percentile is taken over exactly the look-back tail of vals: the last k = floor(n*lb/100) elements, or ALL of them
+    when k = 0 (Python: vals[-0:] is the whole array -- pinned, see DESIGN section 6, D9)"""
+    ctx = smt.CURRENT_CTX
+    calls = ctx.ghost.get('percentile_calls', [])
+    n = ln(vals)
+    k = z3.ToInt(z3.ToReal(n) * z3.ToReal(lookback_perc) / 100)
+    start = z3.If(k == 0, 0, z3.If(n - k > 0, n - k, 0))
+    if len(calls) != 1:
+        return {'one_percentile_call': False}
+    arr, q, out, lo, hi = calls[0]
+    return {
+        'percentile_of_the_lookback_tail': And(arr.n == n - start, Forall(0, arr.n, lambda i: _rv(arr[i]) == _rv(vals[start + i]))),
+        'configured_percentile': _as_real(q) == z3.ToReal(height_perc),
+        'is_that_percentile': And(_rv(result) == out.v, Not(_isnan(result))),
+        # hence inside the selection, hence between the lowest and highest value handed in
+        'inside_the_values': And(_rv(vals[start + lo]) <= _rv(result), _rv(result) <= _rv(vals[start + hi]), lo >= 0, start + lo < n, hi >= 0, start + hi < n),
+    }
+
+
+def register_cbh(reg):
+    reg.add(Contract(
+        'ampycloud.utils.utils.calc_base_height', properties=('C04', 'C08', 'C06'),
+        params={'vals': ArrOf('float'), 'lookback_perc': Int(lo=1, hi=100), 'height_perc': Int(lo=0, hi=100)},
+        requires=lambda vals, lookback_perc, height_perc: {'no_nan': Forall(0, ln(vals), lambda i: Not(_isnan(vals[i])))},
+        result=Float(nan=False, ty='npfloat'),
+        raises={'AmpycloudError': lambda vals, lookback_perc, height_perc: ln(vals) == 0},
+        ensures=_cbh_post,
+        canaries={'always_all_values': lambda result, vals, lookback_perc, height_perc:
+                  smt.CURRENT_CTX.ghost['percentile_calls'][0][0].n == ln(vals)},
+        native_call=lambda vals, lookback_perc, height_perc: __import__('ampycloud').utils.utils.calc_base_height(vals, lookback_perc, height_perc),
+    ))
